@@ -246,7 +246,7 @@ def harness_text(unit, prof, h):
     if cans is None:
         cans = [('bl_exc == 0', 'normal return'), ('bl_exc != 0', 'exceptional return')] if h['fn'] in unit.THROWING else [('1', 'return')]
     can = ['  if (%s) __CPROVER_assert(0, "VACUITY_CANARY %s of %s reachable under the requires clauses");' % (c, n, h['fn']) for c, n in cans]
-    return ['#ifndef NATIVE', 'void h_%s(void) {' % h['name']] + decls + ['  ' + x for x in h.get('pre', [])] + ['  %s(%s);' % (cn, ', '.join(names))] + can + ['}', '#endif', '']
+    return ['#ifndef NATIVE', 'void h_%s(void) {' % h['name']] + decls + ['  ' + (prof.subst(x) if hasattr(prof, 'subst') else x) for x in h.get('pre', [])] + ['  %s(%s);' % (cn, ', '.join(names))] + can + ['}', '#endif', '']
 
 
 # ------------------------------------------------------------------------------ cbmc
@@ -340,6 +340,8 @@ def run_harness(unit, h, src_c, workdir, label_by_line, mode='proof', solver=Non
     for c in h.get('no_checks', []):
         if c in cb:
             cb.remove(c)
+        if c in ('--signed-overflow-check', '--bounds-check', '--pointer-check', '--div-by-zero-check', '--undefined-shift-check', '--pointer-overflow-check'):
+            cb.append('--no-' + c[2:])      # these checks are on by default in cbmc 6
     if solver:
         cb += solver
     to = h.get('timeout', 600) if mode == 'proof' else h.get('bounded_timeout', 600)
